@@ -59,6 +59,7 @@ type Interp struct {
 	ts        *term.Store
 	sol       *solver.Session
 	solFresh  bool // solver session has been reset for this path
+	solGen    int
 	pc        []*term.Term
 	pcSet     map[uint32]bool
 	doms      map[string]*domain
@@ -89,6 +90,7 @@ type Interp struct {
 	sumCache       map[*ssa.Function]*sumEntry
 	sumInst        map[sumKey]*term.Term
 	callStack      []*ssa.Function
+	syncMaps       map[*value]*omap
 
 	sched *scheduler
 	ex    *Explorer
@@ -250,7 +252,16 @@ func skipInit(path string) bool {
 		"internal/oserror", "io/fs", "path/filepath", "internal/testlog", "crypto/rand",
 		"crypto/internal/sysrand", "internal/sysinfo", "internal/runtime/atomic", "iter", "weak", "unique",
 		"encoding/json", "encoding/xml", "encoding/gob", "text/template", "html/template", "encoding/asn1", "encoding/binary", "flag", "go/types", "go/ast", "go/parser",
-		"net/http", "crypto/tls", "crypto/x509", "database/sql", "mime", "internal/godebugs", "internal/race", "internal/msan", "internal/asan":
+		"time/tzdata", "embed", "net/http", "crypto/tls", "crypto/x509", "database/sql", "mime", "internal/godebugs", "internal/race", "internal/msan", "internal/asan":
+		return true
+	}
+	if first, _, _ := strings.Cut(path, "/"); strings.Contains(first, ".") {
+		// third-party module: only a few are safe to initialise by interpretation
+		for _, ok := range []string{"github.com/tucats/", "github.com/brandenc40/", "github.com/google/uuid", "github.com/golang-jwt/"} {
+			if strings.HasPrefix(path, ok) {
+				return false
+			}
+		}
 		return true
 	}
 	if strings.HasPrefix(path, "runtime/") || strings.HasPrefix(path, "internal/runtime/") ||
